@@ -54,6 +54,10 @@ def program_for(bp, decl, seed, horizon=HORIZON, with_ic=None, region_mode='rand
         return secs[i - 1]['cc'] + '.' + secs[i - 1]['code']
 
     prog = []
+    if bp.get('book'):
+        module, cls = bp['book'].split(':')
+        return [{'op': 'Book', 'module': module, 'cls': cls, 'book_exogenous': True},
+                {'op': 'MaxTime', 'value': horizon}]
     if bp['external'] == 'first':
         prog.append({'op': 'External'})
     prev_cur = None
@@ -109,7 +113,13 @@ def program_for(bp, decl, seed, horizon=HORIZON, with_ic=None, region_mode='rand
         elif k == 'CentralBank':
             if d['tre'] and d['trector']:
                 a = {'treasury': '@' + ref(d['tre'])}
-        prog.append({'op': 'Sector', 'country': d['cc'], 'kind': k, 'code': d['code'], 'args': a})
+        if k == 'PlainGovernment':
+            # the user's own government: a bare Sector that demands goods and receives the taxes
+            prog.append({'op': 'Sector', 'country': d['cc'], 'kind': 'Sector', 'code': d['code'], 'args': {}})
+            prog.append({'op': 'AddVariable', 'sector': ref(s), 'name': 'DEM_' + d['good'], 'desc': 'government consumption', 'eqn': '0.0'})
+            prog.append({'op': 'AddVariable', 'sector': ref(s), 'name': 'T', 'desc': 'taxes received', 'eqn': '0.'})
+        else:
+            prog.append({'op': 'Sector', 'country': d['cc'], 'kind': k, 'code': d['code'], 'args': a})
         declared.add(s)
         n_declared += 1
         for what in queries.get(n_declared, []):
